@@ -45,6 +45,7 @@ MIN_REACH = {
     "crops_whose_path_contains_pattern_characters": {"quick": 8, "thorough": 80},
     "cases_reaped_through_the_object_that_reaped_an_earlier_crop": {"quick": 5, "thorough": 60},
     "partial_reaps_of_a_harvester_crop_without_sync": {"quick": 8, "thorough": 100},
+    "crops_without_a_saved_function_reaped_through_bare_handles": {"quick": 6, "thorough": 60},
 }
 TIME_BUDGET = {"quick": 400, "thorough": 3400}
 CASE_TIMEOUT = {"quick": 300, "thorough": 900}
@@ -163,7 +164,13 @@ def run_case(ctx, case):
             shuffle_at_sow = case["shuffle"]
     var_names, var_dims, var_coords = _descr(kind)
     pc = None
-    if case["idx"] % 3 == 1:
+    # a crop whose function is NOT saved beside it (save_fn=False: the function is handed to each grower explicitly), looked
+    # at through handles that never load the crop's information (autoload=False: a monitoring / collecting script)
+    nosave = form not in ("runner_ds", "harvester_ds") and case["idx"] % 7 == 3
+    if nosave:
+        ctor["save_fn"] = False
+        ctx.count("crops_without_a_saved_function_reaped_through_bare_handles")
+    if case["idx"] % 3 == 1 and not nosave:
         # second use of the same location in one process: an earlier crop of the same name, whose function returned a
         # DIFFERENT kind of result, was partially reaped, finished, reaped and thereby deleted
         try:
@@ -181,7 +188,9 @@ def run_case(ctx, case):
             ctx.rmtree(root)
             return
     early = None
-    if form not in ("runner_ds", "harvester_ds") and case["idx"] % 4 == 2:
+    if nosave:
+        pass
+    elif form not in ("runner_ds", "harvester_ds") and case["idx"] % 4 == 2:
         # a handle on the crop that was created (by name) BEFORE anything was sown - a monitoring notebook opened first;
         # every partial reap of this case goes through it
         with quiet():
@@ -202,7 +211,12 @@ def run_case(ctx, case):
             else:
                 crop = xyzpy.Crop(fn=fn, name=name, parent_dir=tmp, **ctor)
             cropkit.sow(crop, w, shuffle_at_sow=shuffle_at_sow)
-            crop.grow_missing()
+            if nosave:
+                from xyzpy.gen.cropping import grow as _grow
+                for i_ in crop.missing_results():
+                    _grow(i_, crop=crop, fn=fn, verbosity=0)
+            else:
+                crop.grow_missing()
     except Exception as e:
         ctx.violation(case, "sow/grow raised %r" % (e,), dict(sig, step="sow/grow", **exc_sig(e)))
         ctx.rmtree(root)
@@ -297,7 +311,7 @@ def run_case(ctx, case):
         # --- refused without allow_incomplete, untouched ---
         try:
             with quiet():
-                c = xyzpy.Crop(name=name, parent_dir=tmp) if form not in ("runner_ds", "harvester_ds") else crop
+                c = xyzpy.Crop(name=name, parent_dir=tmp) if form not in ("runner_ds", "harvester_ds") and not nosave else crop
                 do_reap(c)
             ctx.violation(subcase, "incomplete crop (finished %s of %d) was reaped without allow_incomplete" % (sorted(S), B),
                           dict(sig, oracle="refusal"))
@@ -316,7 +330,10 @@ def run_case(ctx, case):
         # --- partial reap ---
         try:
             with quiet():
-                c = xyzpy.Crop(name=name, parent_dir=tmp) if form not in ("runner_ds", "harvester_ds") else crop
+                if nosave:
+                    c = xyzpy.Crop(name=name, parent_dir=tmp, autoload=False)
+                else:
+                    c = xyzpy.Crop(name=name, parent_dir=tmp) if form not in ("runner_ds", "harvester_ds") else crop
                 if early is not None:
                     c = early
                 racing = form == "harvester_ds" and (case["idx"] + len(S)) % 2 == 0
@@ -469,8 +486,12 @@ def run_case(ctx, case):
     if nviol == 0 and subsets:
         try:
             with quiet():
-                c = xyzpy.Crop(name=name, parent_dir=tmp) if form not in ("runner_ds", "harvester_ds") else crop
-                c.grow_missing()
+                c = xyzpy.Crop(name=name, parent_dir=tmp) if form not in ("runner_ds", "harvester_ds") and not nosave else crop
+                if nosave:
+                    for i_ in c.missing_results():
+                        _grow(i_, crop=c, fn=fn, verbosity=0)
+                else:
+                    c.grow_missing()
                 res = do_reap(c)
             bad = None
             if form == "raw":
